@@ -133,6 +133,52 @@ def gen_case(rng, k):
     return c
 
 
+def gen_spline(rng):
+    method = rng.choice(['akima', 'akima', 'slinear', 'cubic', 'bsplines'])
+    c = {'comp': 'spline', 'method': method, 'vs': rng.choice([1, 1, 2, 3])}
+    if method == 'bsplines':
+        ncp = rng.choice([5, 6, 7, 8])
+        c['num_cp'], c['x_cp'] = ncp, None
+        c['interp_options'] = {'order': rng.choice([2, 3, 4])}
+        lo, hi = 0.0, 1.0
+    elif rng.random() < 0.25:
+        ncp = rng.choice([5, 6, 7])
+        c['num_cp'], c['x_cp'] = ncp, None
+        lo, hi = 0.0, 1.0
+    else:
+        ncp = rng.choice([5, 6, 7])
+        x, grid = float(rng.randrange(-8, 8)) / 4, []
+        for _ in range(ncp):
+            grid.append(x)
+            x += rng.choice([0.5, 0.75, 1.0, 1.5, 2.0, 3.0])
+        c['x_cp'] = grid
+        lo, hi = grid[0], grid[-1]
+    ni = rng.choice([3, 4, 6])
+    c['x_interp'] = sorted(lo + (hi - lo) * rng.randrange(1, 200) / 200.0 for _ in range(ni))
+    if rng.random() < 0.3:
+        c['x_interp'][0], c['x_interp'][-1] = lo, hi          # end points themselves
+    nspl = rng.choice([1, 2, 2, 3])
+    c['splines'] = []
+    for _ in range(nspl):
+        def draw():
+            # control values whose consecutive slopes differ clearly (no collinear triples: akima kinks)
+            for _ in range(200):
+                vals, good = [], True
+                for _ in range(c['vs']):
+                    v = [float(rng.randrange(-40, 41)) / 4 for _ in range(ncp)]
+                    xs = c['x_cp'] or [k / (ncp - 1.0) for k in range(ncp)]
+                    m = [(v[k + 1] - v[k]) / (xs[k + 1] - xs[k]) for k in range(ncp - 1)]
+                    if any(abs(m[k + 1] - m[k]) < 0.5 for k in range(len(m) - 1)):
+                        good = False
+                    vals.append(v)
+                if good:
+                    return vals
+            return vals
+        c['splines'].append({'init': draw(), 'ycp': draw(), 'units': rng.choice([None, None, 'm', 'N*m'])})
+    c['variant'] = method
+    return c
+
+
 class C26(Spec):
     pid = 'C26'
     imports = ['Expr.Expr', 'C26.Model']
@@ -157,6 +203,7 @@ class C26(Spec):
             cases.append({'comp': 'balance_rhs_kwargs', 'rhs': jq(dy(rng)), 'lhs': jq(dy(rng))})
             cases.append({'comp': 'self_product', 'which': 'dot', 'x': [jq(dy(rng)) for _ in range(rng.choice([1, 2, 3]))]})
             cases.append({'comp': 'self_product', 'which': 'cross', 'x': [jq(dy(rng)) for _ in range(3)]})
+        cases += [gen_spline(rng) for _ in range(50 if tier == 'quick' else 500)]
         return cases
 
     def search_gen(self, tier, rng):
